@@ -13,6 +13,7 @@ EXPLANATION = (
     "Not decided: the exact spliced text and fence-length corner cases (string values)."
     ' (R7) is_code_fence_close rejects exactly the lines with another marker or a SHORTER run than the opening fence, decided over the finite (marker, length) table.'
     ' (R4, tightened) the active-set key derives from canonicalize(path) (two spellings of one file must be one key).'
+    ' (R8) the token expander examines every line of its chunk: no Ok exit before or inside the line loop, the result is the accumulator the loop fills, and the per-line test is standalone_braced_content.'
 )
 
 HS = r"std::collections::hash::set::HashSet::<T, S, A>::"
